@@ -340,6 +340,11 @@ fn assemble(contents: &StaticSource) -> Result<Air> {
     let parser = lace::AsmParser::new(contents.src())?;
     let mut air = parser.parse()?;
     air.backpatch()?;
+    // Emission can still fail (label too far away): report it here, so that `check` and `watch` agree with
+    // `compile` and `run`
+    for stmt in &air {
+        stmt.emit()?;
+    }
     Ok(air)
 }
 
